@@ -15,6 +15,7 @@ import (
 	_ "verifsim/worlds/stateworld"
 	_ "verifsim/worlds/votedbworld"
 	_ "verifsim/worlds/networld"
+	_ "verifsim/worlds/c11world"
 	_ "verifsim/worlds/voterworld"
 	_ "verifsim/worlds/c01world"
 	_ "verifsim/worlds/c17world"
